@@ -321,6 +321,8 @@ def run_case(case):
     labels.add('expect-ok')
     if status != 'ok':
         raise Violation(f'C13: {case["kind"]} of {target_name} with {args!r} should give {expected[1]!r} but the build failed: {type(got).__name__}: {got}{src}')
+    if 'f' not in got:
+        raise Violation(f'C13: the key holding the {case["kind"]} node is missing from the evaluated config {O.to_builtin(got)!r}{src}')
     f = got['f']
     if case['kind'] == '!call':
         if O.canon_unordered(O.to_builtin(f)) != O.canon_unordered(expected[1]):      # the order of keyword arguments carries no meaning
